@@ -60,8 +60,8 @@ PROPS = {
                ('u_fprint', [r'::fmt$', r'^lemma_op_pieces$', r'^(fp_|join_|path_text|op_text)'], dict(one_spelling=True)),
                ('u_fgram', [r'^Parser::', r'^lemma_join_', r'^lemma_drop_last_push$'], dict(beyond_property='the token-grammar contract also rejects a parser that starts to accept text which is not a filter, about which the property is silent'))],
         kani=[],
-        witness='enum:filter-print-parse',
-        enums_thorough=['enum:filter-eval-exhaustive'],
+        witness=['enum:filter-print-parse', 'enum:random-filters'],
+        enums_thorough=['enum:filter-eval-exhaustive', 'enum:random-filters 20000'],
         design_ref='DESIGN.md section 4, C08',
         level_text=('Proof (Verus), parser side, token level (u_fgram): a specification tok_or / tok_and / tok_term of the token spelling of a filter tree is '
                     'written from the filter grammar -- an `or` is its operands separated by the token or, each operand an `and`: its terms separated by the '
